@@ -299,9 +299,11 @@ def run(ctx):
                 meta['macro'].append({'prefix': pf, 'default_stream': dst, 'ert': ert, 'expansion': m2.group(1), 'via': 'tracepoint()', 'yaml': G.yaml_text(doc)})
         nmac += 1
     # ---- 6. CLI --prefix
-    for pv in ['xyz_', 'xyz', 'q__', 'A_b_', '_trc_', '__u']:
-        doc = simple_doc('ignored', 's', 'e')
-        d = os.path.join(ctx.scratch, 'cli_' + pv)
+    # (configured prefix: a string unrelated to --prefix, and the object form whose identifier prefix EQUALS --prefix
+    # while its file name prefix is something else: the override still decides both)
+    for pv, cfgp in [(pv, cp) for pv in ['xyz_', 'xyz', 'q__', 'A_b_', '_trc_', '__u'] for cp in ('ignored', (pv, 'tracerfile'))]:
+        doc = simple_doc(cfgp, 's', 'e')
+        d = os.path.join(ctx.scratch, 'cli_%s_%s' % (pv, 'str' if isinstance(cfgp, str) else 'obj'))
         p = d + '.yaml'
         with open(p, 'w') as f:
             f.write(G.yaml_text(doc))
